@@ -95,14 +95,19 @@ func fromBytes(data []byte) (byte, mh.Multihash, error) {
 //
 // It discards multihashes from the `StopProviding` operation if
 // `StartProviding` was called after `StopProviding` for the same multihash.
+//
+// Items that cannot be parsed are skipped; the returned error reports them.
 func getOperations(dequeued [][]byte) ([][]mh.Multihash, error) {
 	stopProv := make(map[string]struct{})
 	ops := [lastOp - 1][]mh.Multihash{} // don't store stop ops
 
+	var errs []error
 	for _, bs := range dequeued {
 		op, h, err := fromBytes(bs)
 		if err != nil {
-			return nil, err
+			// Skip this item only: the other operations of the batch are valid.
+			errs = append(errs, err)
+			continue
 		}
 		switch op {
 		case provideOnceOp:
@@ -118,7 +123,7 @@ func getOperations(dequeued [][]byte) ([][]mh.Multihash, error) {
 	for hstr := range stopProv {
 		stopOps = append(stopOps, mh.Multihash(hstr))
 	}
-	return append(ops[:], stopOps), nil
+	return append(ops[:], stopOps), errors.Join(errs...)
 }
 
 // executeOperation executes a provider operation on the underlying provider
@@ -165,8 +170,8 @@ func (s *SweepingProvider) worker() {
 		}
 		ops, err := getOperations(res)
 		if err != nil {
+			// The items that could be parsed are still executed.
 			s.logger.Warnf("BufferedSweepingProvider unable to parse dequeued item: %v", err)
-			continue
 		}
 		// Execute the 4 kinds of queued provider operations on the underlying
 		// provider.
